@@ -273,7 +273,7 @@ def jobs(tier, seed):
     rng.shuffle(pairs)
     npairs = len(pairs) if tier == "thorough" else 70
     for a, b in pairs[:npairs]:
-        for _ in range(2 if tier == "thorough" else 1):
+        for _ in range(1):
             cfg = dict(rng.choice(cfgs))
             if OPS[a]["op"] in ("getitem", "get", "setdefault") or OPS[b]["op"] in ("getitem", "get", "setdefault"):
                 cfg["om"] = rng.choice([0, 0, 1, 2])
